@@ -121,13 +121,16 @@ fn gen_program(r: &mut Rng, k: usize) -> Prog {
     };
     junk(r, &mut out);
     if use_ext && r.chance(1, 3) { out.push(format!(".external {ext_global}")); ext_declared = true; }
-    let nblocks = match r.below(10) { 0 => 0, 1..=5 => 1, 6..=8 => 2, _ => 3 };
+    // now and then one giant block (its word array passes 64 KiB in the binary format: 3 bytes per word)
+    let giant = k % 37 == 5;
+    let nblocks = if giant { 1 } else { match r.below(10) { 0 => 0, 1..=5 => 1, 6..=8 => 2, _ => 3 } };
     let mut global_defined = false;
     for bi in 0..nblocks {
         junk(r, &mut out);
         let orig = region + bi as u32 * 0x300 + r.below(0x40) as u32;
         out.push(format!("{}.orig x{:04X}{}", if r.chance(1, 3) { "  " } else { "" }, orig, if r.chance(1, 4) { format!(" ;{}", hostile(r, 5)) } else { String::new() }));
-        let nst = r.below(14) as usize;
+        let nst = if giant { 1 + r.below(6) as usize } else { r.below(14) as usize };
+        let giant_at = if giant { r.below(nst as u64) as usize } else { usize::MAX };
         // which statements carry a label
         let mut labels: Vec<Option<String>> = (0..nst).map(|si| if r.chance(1, 3) { Some(format!("{pfx}B{bi}L{si}")) } else { None }).collect();
         if !global_defined && nst > 0 && r.chance(3, 4) { let at = r.below(nst as u64) as usize; labels[at] = Some(my_global.clone()); global_defined = true; }
@@ -143,7 +146,8 @@ fn gen_program(r: &mut Rng, k: usize) -> Prog {
             }
             line.push_str("  ");
             let reg = |r: &mut Rng| format!("R{}", r.below(8));
-            let stmt = match r.below(16) {
+            let stmt = match if si == giant_at { 99 } else { r.below(16) } {
+                99 => format!(".blkw {}", *r.pick(&[21845u32, 21846, 21847, 0x6000, 32768, 40000])),
                 0 => format!("ADD {}, {}, #{}", reg(r), reg(r), r.range(-16, 15)),
                 1 => format!("AND {}, {}, {}", reg(r), reg(r), reg(r)),
                 2 => format!("NOT {}, {}", reg(r), reg(r)),
@@ -180,18 +184,20 @@ fn try_assemble(src: &str, debug: bool) -> Option<ObjectFile> {
 // ------------------------------------------------------------------------------------------
 // valid objects: correspondence + round-trip oracles (C17, C18)
 
-fn check_valid(ctx: &Ctx, shard: usize, o: &ObjectFile, what: &str) {
+fn check_valid(ctx: &Ctx, shard: usize, o: &ObjectFile, what: &str) { check_valid_opt(ctx, shard, o, what, true) }
+/// `record = false`: round-trip oracles only, no correspondence cases (giant blocks: the extracted model is too slow on them)
+fn check_valid_opt(ctx: &Ctx, shard: usize, o: &ObjectFile, what: &str, record: bool) {
     let t = t_obj(o);
     let tord = t_obj_ord(o);
-    ctx.case_to(shard, "objbin.inv", &t, &I(1));
-    ctx.case_to(shard, "objtext.inv", &t, &I(1));
+    if record { ctx.case_to(shard, "objbin.inv", &t, &I(1)); }
+    if record { ctx.case_to(shard, "objtext.inv", &t, &I(1)); }
     // ---- binary
     match catch(|| BinaryFormat::serialize(o)) {
         None => fail(ctx, "C17", "bin_write_panics", format!("BinaryFormat::serialize panics on a {what} object"), format!("objbin.ser\t{tord}")),
         Some(bs) => {
-            ctx.case_to(shard, "objbin.ser", &tord, &bytes(&bs));
+            if record { ctx.case_to(shard, "objbin.ser", &tord, &bytes(&bs)); }
             let back = catch(|| BinaryFormat::deserialize(&bs));
-            ctx.case_to(shard, "objbin.deser", &bytes(&bs), &t_read(&back));
+            if record { ctx.case_to(shard, "objbin.deser", &bytes(&bs), &t_read(&back)); }
             let replay = format!("objbin.ser\t{tord}");
             match back {
                 None => fail(ctx, "C17", "bin_read_panics", format!("BinaryFormat::deserialize panics on the serialization of a {what} object"), replay),
@@ -206,9 +212,9 @@ fn check_valid(ctx: &Ctx, shard: usize, o: &ObjectFile, what: &str) {
     match catch(|| TextFormat::serialize(o)) {
         None => fail(ctx, "C18", "text_write_panics", format!("TextFormat::serialize panics on a {what} object"), format!("objtext.ser\t{t}")),
         Some(s) => {
-            ctx.case_to(shard, "objtext.ser", &t, &chars(&s));
+            if record { ctx.case_to(shard, "objtext.ser", &t, &chars(&s)); }
             let back = catch(|| TextFormat::deserialize(&s));
-            ctx.case_to(shard, "objtext.deser", &chars(&s), &t_read(&back));
+            if record { ctx.case_to(shard, "objtext.deser", &chars(&s), &t_read(&back)); }
             let replay = format!("objtext.ser\t{t}");
             match back {
                 None => fail(ctx, "C18", "text_read_panics", format!("TextFormat::deserialize panics on the serialization of a {what} object"), replay),
@@ -541,8 +547,9 @@ fn after_read(ctx: &Ctx, shard: usize, o: &ObjectFile, partners: &[ObjectFile], 
 }
 
 fn read_bin(ctx: &Ctx, shard: usize, bs: &[u8], partners: &[ObjectFile], r: &mut Rng, origin: &str) {
-    let res = catch(|| BinaryFormat::deserialize(bs));
     let inp = bytes(bs);
+    ctx.attempting(&format!("objbin.deser\t{inp}"));
+    let res = catch(|| BinaryFormat::deserialize(bs));
     ctx.case_to(shard, "objbin.deser", &inp, &t_read(&res));
     match res {
         None => fail(ctx, "C19", "bin_read_panics", format!("BinaryFormat::deserialize panics ({}) on {origin}", crate::LAST_PANIC.with(|p| p.borrow().clone())), format!("objbin.deser\t{inp}")),
@@ -551,8 +558,9 @@ fn read_bin(ctx: &Ctx, shard: usize, bs: &[u8], partners: &[ObjectFile], r: &mut
     }
 }
 fn read_text(ctx: &Ctx, shard: usize, s: &str, partners: &[ObjectFile], r: &mut Rng, origin: &str) {
-    let res = catch(|| TextFormat::deserialize(s));
     let inp = chars(s);
+    ctx.attempting(&format!("objtext.deser\t{inp}"));
+    let res = catch(|| TextFormat::deserialize(s));
     ctx.case_to(shard, "objtext.deser", &inp, &t_read(&res));
     match res {
         None => fail(ctx, "C19", "text_read_panics", format!("TextFormat::deserialize panics ({}) on {origin}", crate::LAST_PANIC.with(|p| p.borrow().clone())), format!("objtext.deser\t{inp}")),
@@ -628,6 +636,16 @@ pub fn run(ctx: &Ctx, replay: Option<&str>) {
         let mut r = root.fork(k as u64);
         let p = gen_program(&mut r, k);
         let mut v = vec![];
+        if k % 37 == 5 {
+            // one giant block: direct round-trip oracles only (not linked, not mutated, no model cases)
+            for dbg in [true, false] {
+                match try_assemble(&p.src, dbg) {
+                    Some(o) => { ctx.stat("objects.giant_block", 1); check_valid_opt(ctx, k, &o, "giant-block", false); }
+                    None => ctx.stat("programs.giant_rejected", 1),
+                }
+            }
+            return;
+        }
         match try_assemble(&p.src, true) {
             Some(o) => { ctx.stat("objects.assembled_debug", 1); v.push((o, "debug-assembled")); }
             None => ctx.stat("programs.rejected", 1),
